@@ -328,6 +328,18 @@ def _consistent(gen, g, tags, where):
         require(ok, f"{where}: RandMeth arrays inconsistent", dict(tags, kind="inconsistent_arrays"))
 
 
+def _net_change_in_isclose_window(srf):
+    """The generator's own model copy compares equal (library ==, i.e. numpy.isclose) to the SRF's model although a parameter differs."""
+    a, b = srf.generator.model, srf.model
+    if not (a == b):
+        return False
+
+    def par(m):
+        return [float(m.var), float(m.len_scale), float(m.nugget)] + [float(x) for x in m.anis] + [float(x) for x in m.angles] + [float(getattr(m, o)) for o in m.opt_arg]
+
+    return par(a) != par(b)
+
+
 def check_history(case, rec):
     spec = case["spec"]
     g = case["gen"]
@@ -361,6 +373,15 @@ def check_history(case, rec):
                     scale = math.sqrt(float(srf.model.var)) * (kw.get("mean_velocity", 1.0))
                     tol = 1e-9 * max(scale, 1e-300)
                     err = float(np.max(np.abs(np.asarray(f) - np.asarray(ref))))
+                    if err > tol and _net_change_in_isclose_window(srf):
+                        # several in-place changes can compound to a net change inside numpy.isclose's window: known finding K7
+                        rec.soft(
+                            f"{where}: net in-place model change since the last generation lies inside the isclose window and is not seen "
+                            f"(field off by {err:.3g})",
+                            dict(otags, kind="isclose_window"),
+                        )
+                        rec.label("stopped_at_K7_net_change")
+                        break
                     rec.discrepancy("fresh", err, tol)
                     require(
                         err <= tol,
